@@ -54,6 +54,13 @@ type Obligation struct {
 	goal    string
 	Model   []ModelVar
 	IsCover bool // must be SAT (vacuity guard)
+	ssaFn   *ssa.Function
+	Results []ResultTerm
+}
+
+type ResultTerm struct {
+	Term string `json:"term"`
+	Sort string `json:"sort"`
 }
 
 type ModelVar struct {
@@ -134,7 +141,7 @@ func (e *Encoder) fnName() string {
 }
 
 func (e *Encoder) addObl(kind, text, pc, goal string) *Obligation {
-	o := &Obligation{Name: e.oblName(kind), Fn: e.fnName(), Kind: kind, Text: text, ctx: e.c, pos: e.c.pos(), pc: pc, goal: goal, Model: e.modelVars}
+	o := &Obligation{Name: e.oblName(kind), Fn: e.fnName(), Kind: kind, Text: text, ctx: e.c, pos: e.c.pos(), pc: pc, goal: goal, Model: e.modelVars, ssaFn: e.fn}
 	if e.fc != nil {
 		o.Props = e.fc.Props
 	}
